@@ -24,8 +24,8 @@ import (
 
 type c18Case struct {
 	W           wireCase `json:"w"`
-	Constructed bool     `json:"constructed"` // message built and signed in memory instead of decoded
-	KeyIdx      int      `json:"key_idx"`     // index into zeroCoordScalars (EC2 key with a short coordinate); -1 Ed25519
+	Constructed bool     `json:"constructed"`         // message built and signed in memory instead of decoded
+	KeyIdx      int      `json:"key_idx"`             // index into zeroCoordScalars (EC2 key with a short coordinate); -1 Ed25519
 	DropMaps    bool     `json:"drop_maps,omitempty"` // decoded message whose Protected maps are nil (only the raw bytes are kept), as in a struct-literal message
 	G           int      `json:"g"`
 	Plan        [][]int  `json:"plan"` // per goroutine: indices into the operation list
@@ -163,6 +163,17 @@ func c18Build(c *c18Case) (shared []any, ops []c18Op, err error) {
 	}
 	if err != nil {
 		return nil, nil, err
+	}
+	if c.KeyIdx%2 == 0 {
+		// as received from a peer that omits alg (label 3): Key.Algorithm stays unset
+		key.Algorithm = cose.AlgorithmReserved
+		if kb, err := key.MarshalCBOR(); err == nil {
+			var dk cose.Key
+			if err := dk.UnmarshalCBOR(kb); err == nil {
+				key = &dk
+				stats.Class("key/decoded-without-alg")
+			}
+		}
 	}
 	shared = append(shared, key)
 	ops = append(ops,
